@@ -120,7 +120,7 @@ def line_of(case):
     if ep in ("P", "S", "F", "G"):
         return "%s\t%s" % (ep, hx(case["schema"]))
     if ep == "D":
-        return "D\t%s" % hx(case["doc"])
+        return "D\t%s%s" % (hx(case["doc"]), "\t%d" % case["reps"] if case.get("reps") else "")
     if ep == "V":
         return "V\t%s\t%s\t%s" % (hx(case["schema"]), hx(case["doc"]), "1" if case.get("header") else "0")
     return "%s\t%s\t%s" % (ep, hx(case["schema"]), hx(case["doc"]))
@@ -523,15 +523,21 @@ SUFFIX = "gg<t> = t\nbb = &(x: 0, y: 1)\n$sock /= {X}\n$$gsock //= (a: {X})\n"
 
 def cyc_schema(pos, k, links, kind="type"):
     names = ["c%d" % i for i in range(k)]
-    s = "r0 = " + pos.replace("{X}", names[0]) + "\n"
+    def braces(t):
+        return t.replace("{{", "{").replace("}}", "}")
+    s = "r0 = " + braces(pos.replace("{X}", names[0])) + "\n"
     for i, n in enumerate(names):
         nxt = names[(i + 1) % k]
-        body = links[i % len(links)].replace("{Y}", nxt)
+        body = braces(links[i % len(links)].replace("{Y}", nxt))
         s += "%s = %s\n" % (n, body)
     return s + SUFFIX.replace("{X}", names[0])
 
 
 HANDWRITTEN = [
+    # plain recursion: the validators' own guards (visited rules, active group references, zero-width iterations) must hold
+    "a = a", "a = b\nb = a", "a = b\nb = c\nc = a", "a = [a]", "a = {a}", "a = (a)", "a = [* a]", "a = [+ a]", "a = {* a => a}", "a = { a: a }", "a = [a, a]",
+    "a = a / int", "a = int / a", "a = #6.1(a)", "a = [b]\nb = (b)", "a = [b]\nb = (c)\nc = (b)", "a = {b}\nb = (b)", "a = {b}\nb = (c)\nc = (b)", "a = [* b]\nb = (* b)",
+    "a = [+ b]\nb = (+ b)", "a = {* b}\nb = (* b)", "a = [* a] / int", "a = {* tstr => a} / int", "a = [a] / [a, a] / int", "a = b / c\nb = c / a\nc = a / b / int",
     # generics that grow or loop
     "a = b<int>\nb<t> = b<t>", "a = b<int>\nb<t> = c<t>\nc<t> = b<t>", "a = b<a>\nb<t> = t", "a = b<int>\nb<t> = [b<t>]", "a = b<int>\nb<t> = b<[t]>",
     "a = b<int>\nb<t> = t .size t", "a = b<int, tstr>\nb<t> = t", "a = b\nb<t> = t", "a = b<int>\nb = int", "a = int<tstr>", "a = [b<int>]\nb<t> = (t, b<t>)",
@@ -606,13 +612,13 @@ def gen_hostile(rng, tier, n_cyc):
     if tier != "thorough":
         combos = rng.sample(combos, min(len(combos), n_cyc))
     for pos, k in combos:
-        variants = [["{Y}"]] if tier != "thorough" else [[l] for l in LINK]
-        if tier != "thorough":
-            variants.append([rng.choice(LINK) for _ in range(k)])
+        variants = [["{Y}"], [rng.choice(LINK) for _ in range(k)]]
+        if tier == "thorough":
+            variants.append([rng.choice(LINK)])
         for links in variants:
             s = cyc_schema(pos, k, links)
-            jd = JDOCS if tier == "thorough" else rng.sample(JDOCS, 2)
-            cd = CDOCS if tier == "thorough" else rng.sample(CDOCS, 1)
+            jd = rng.sample(JDOCS, 4 if tier == "thorough" else 2)
+            cd = rng.sample(CDOCS, 3 if tier == "thorough" else 1)
             for d in jd:
                 out.append({"ep": "J", "schema": s, "doc": d, "fam": "hostile/cycle", "pos": pos, "k": k})
             for d in cd:
@@ -626,9 +632,9 @@ def gen_hostile(rng, tier, n_cyc):
                 names = ["g%d" % i for i in range(k)]
                 s = "r0 = " + root.replace("{X}", names[0]).replace("{{", "{").replace("}}", "}") + "\n"
                 s += "".join("%s = %s\n" % (n, gl.replace("{Y}", names[(i + 1) % k])) for i, n in enumerate(names))
-                for d in (JDOCS if tier == "thorough" else ['[1]', '{"a":1}']):
+                for d in (['[1]', '{"a":1}', '1', '[]'] if tier == "thorough" else ['[1]', '{"a":1}']):
                     out.append({"ep": "J", "schema": s, "doc": d, "fam": "hostile/group-cycle"})
-                for d in (CDOCS if tier == "thorough" else ['8101']):
+                for d in (['8101', 'a1616101', '01'] if tier == "thorough" else ['8101']):
                     out.append({"ep": "C", "schema": s, "doc": bytes.fromhex(d), "fam": "hostile/group-cycle"})
     hand = HANDWRITTEN
     for s in hand:
@@ -937,7 +943,7 @@ def run(tier, seed):
     rng = random.Random(seed)
     quick = tier != "thorough"
     wide = not proved
-    case_ms = 3000 if quick else 10000
+    case_ms = 3000 if quick else 5000
     tally = Tally()
     findings = {f["id"]: f for f in my_findings()}
     notes = res.notes
@@ -1017,7 +1023,7 @@ def run(tier, seed):
     # nesting inside a SCHEMA costs exponential time in parse / format / validation (open findings): the small
     # depths run in full, depth 64 (and in thorough every depth) is probed with a short watchdog
     small_schema_depths = [1, 2, 3, 4, 8, 12]
-    probe_schema_depths = [64] if quick else list(range(13, 65))
+    probe_schema_depths = [64] if quick else [14, 16, 20, 24, 32, 48, 64]
     out_depths = [65, 128, 1000, 10000] if quick else [65, 96, 128, 160, 200, 256, 400, 512, 1000, 2000, 3000, 5000, 10000, 20000]
     depth_cases = gen_depth(in_depths, tier, schema_depths=small_schema_depths)
     probe_cases = [c for c in gen_depth(probe_schema_depths, tier, schema_depths=probe_schema_depths) if c["fam"].startswith("depth/schema-")]
@@ -1031,7 +1037,7 @@ def run(tier, seed):
         k = (c["ep"], c["schema"])
         (rest if k in seen_se else first).append(c)
         seen_se.add(k)
-    alias_cases = gen_alias_family(rng, (200 if quick else 20000) * (3 if wide else 1))
+    alias_cases = gen_alias_family(rng, (200 if quick else 5000) * (3 if wide else 1))
     # ---- 3. run ---------------------------------------------------------------------------
     t_run = time.time()
     phase("generate")
@@ -1041,7 +1047,7 @@ def run(tier, seed):
     execute([c for c in head_cases if (c["ep"] == "D" and (not quick or c["fam"] in ("head/truncated", "head/+3", "head/in-array", "head/chunk-boundary"))) or not quick], "debug")
     phase("heads")
     execute(depth_cases, "release"); execute(depth_cases, "debug")
-    execute(probe_cases, "release", ms=400 if quick else 3000)
+    execute(probe_cases, "release", ms=400 if quick else 1500)
     phase("depth")
     rb = execute(beyond_cases, "release", ms=1000 if quick else case_ms, beyond=True)
     phase("beyond")
@@ -1068,6 +1074,9 @@ def run(tier, seed):
     #        in between (a cycle is reachable but the first helper chain stops early): later helper calls decide; either outcome,
     #        a failure must be a non-return
     NONRET = ("STACK", "TIMEOUT", "HANG")
+    # once the finding is repaired (its witness returns) the code has a guard the model lacks: the model's
+    # "does not return" no longer applies, and every schema of the family has to return
+    alias_open = bool(wres.get("kf-c05-alias-cycle-chase"))
     l_seq, l_any = [], []
     for c in alias_cases:
         ids = Ids()
@@ -1093,6 +1102,12 @@ def run(tier, seed):
         if r["v"] in ("PANIC", "ALLOC", "CRASH"):
             mismatches += 1
             res.violation("validate_json_from_str: %s (%s) on schema %r doc %s" % (r["v"], r["detail"][:100], c["schema"], c["doc"]), replay_of(c, "release", r))
+        elif o == "O" and not nonret and not alias_open:
+            agree["model-nonreturn-guarded-code-returns"] = agree.get("model-nonreturn-guarded-code-returns", 0) + 1
+        elif nonret and not alias_open:
+            mismatches += 1
+            res.violation("validate_json_from_str: %s on an alias-chase schema although the alias-cycle finding is repaired: schema %r doc %s"
+                          % (r["v"], c["schema"], c["doc"]), replay_of(c, "release", r))
         elif o == "O" and not nonret:
             mismatches += 1
             res.violation("alias-chase model predicts that validate_json_from_str does not return (chase_seq = OutOfFuel) but it returned %s: schema %r doc %s"
@@ -1120,10 +1135,13 @@ def run(tier, seed):
         rs = run_cases(drv[profile], [line_of(c) for _, c, _ in sel], case_ms=case_ms)
         for (l, c, p), r in zip(sel, rs):
             fam = c["fam"]
+            repaired = not wres.get({"model/arith-mul1000": "kf-c05-time-mul-overflow", "model/arith-try-into": "kf-c05-cbor-time-try-into",
+                                     "model/arith-plus": "kf-c05-plus-add-overflow"}.get(fam, ""))
             if fam == "model/arith-size-u32":
                 want = "OK" if p == "A" else "ERR"
             else:
-                want = "PANIC" if p == "P" else "OKERR"
+                # a repaired finding: the operation is checked in the code, nothing panics any more
+                want = "PANIC" if (p == "P" and not repaired) else "OKERR"
             got = r["v"]
             ok = (got == want) or (want == "OKERR" and got in ("OK", "ERR"))
             kf = classify(c, r, profile, graphs) if got in FAIL else None
@@ -1164,12 +1182,22 @@ def run(tier, seed):
         for n in sizes:
             for ep, c in growth_input(fam, n):
                 c = dict(c, ep=ep, fam="growth/" + fam, n=n)
+                if ep == "D":
+                    c["reps"] = 20
                 glist.append(c)
     for profile in ("release", "debug") if not quick else ("release",):
         best = {}
 
         def measure(indices, count_them):
-            rs = run_cases(drv[profile], [line_of(glist[i]) for i in indices], case_ms=20000 if quick else 60000, shards=8, per_shard=1)
+            # every shard process runs its cases twice in a row: the second pass finds the heap warm
+            # (a fresh process pays page faults for every allocation, which swamps a fast function)
+            nsh = 8
+            pad = (-len(indices)) % nsh
+            order = list(indices) + [indices[0]] * pad
+            rs = run_cases(drv[profile], [line_of(glist[i]) for i in order + order], case_ms=20000 if quick else 60000, shards=nsh, per_shard=1)
+            for i, r in zip(order, rs[len(order):]):
+                if r["v"] in ("OK", "ERR"):
+                    best[i] = min(best.get(i, 10 ** 12), max(r["cpu"], 1))
             for i, r in zip(indices, rs):
                 c = glist[i]
                 if count_them:
